@@ -478,7 +478,10 @@ RunLoop:
 				}
 				setReg(regs, cells, startReg, nextStart)
 			} else {
-				// Prepare for loop
+				// Prepare for loop.  It is done with integers only if the
+				// initial value and the step are integers (a numeric string
+				// is not an integer), otherwise with floats.
+				intLoop := start.NumberType() == IntType && step.NumberType() == IntType
 				start, tstart := ToNumberValue(start)
 				stop, tstop := ToNumberValue(stop)
 				step, tstep := ToNumberValue(step)
@@ -498,12 +501,12 @@ RunLoop:
 					}
 					return nil, fmt.Errorf("'for' %s: expected number, got %s", role, val.CustomTypeName())
 				}
-				// Make sure start and step have the same numeric type
-				if tstart != tstep {
-					// One is a float, one is an int, turn them both to floats
+				if !intLoop {
+					// Turn start and step to floats
 					if tstart == IsInt {
 						start = FloatValue(float64(start.AsInt()))
-					} else {
+					}
+					if tstep == IsInt {
 						step = FloatValue(float64(step.AsInt()))
 					}
 				}
